@@ -62,6 +62,9 @@ structure Oracle where
   eq : Nat → Nat → Bool         -- dest == src
   relOk : Nat → Nat → Bool      -- self.get_relative_path(target) does not raise
   ids : Nat → String            -- uuid4 text drawn for the copy with this handle
+  /-- what `get_section_by_path(x._link)` finds for the link a Section `x` has stored already
+      (`none` = it raises); only looked at when a new link is refused by the merge -/
+  oldLink : Nat → Option Nat := fun _ => none
 
 /-- One public structural operation on the heap component. The only way the heap changes. -/
 def X.prim (s : X) (op : Op) : X × XOut :=
@@ -317,7 +320,28 @@ inductive LinkVal where
 def cleanIfLinked (O : Oracle) (fuel : Nat) (s : X) (x : Nat) : X × XOut :=
   if s.link x then cleanAux O fuel s x else (s, .ok)
 
-/-- `x.link = value` (no `include` is set anywhere). -/
+/-- `self.merge()` in the `except` branch of the link setter (fix 06cfd75): the link the Section
+    had before is assigned once more - `self.link = self._link`: the path is looked up again
+    (`O.oldLink x`), the Section is cleaned (`_link` is not None) and the previous target merged.
+    Were *that* merge refused too, its `except` branch would assign the same link again, and so on
+    without end (RecursionError in the implementation; the budget runs out here). -/
+def relinkAux (O : Oracle) : Nat → X → Nat → X × XOut
+  | 0, s, _ => (s, .fuel)
+  | fuel + 1, s, x =>
+    match O.oldLink x with
+    | Option.none => (s, .raised .valueError)
+    | some t0 =>
+      match cleanIfLinked O fuel s x with
+      | (s1, .ok) =>
+        match mergeAux O fuel s1 x t0 with
+        | (s2, .ok) => (s2, .ok)                 -- `self._link = new_value` (the value it has)
+        | (s2, .fuel) => (s2, .fuel)
+        | (s2, _) => relinkAux O fuel s2 x       -- `if self._link is not None: self.merge()`
+      | r => r
+
+/-- `x.link = value` (no `include` is set anywhere). The new link is stored only after the merge
+    of the referenced Section has succeeded; when the merge is refused, a link the Section had
+    before (unresolved by the `clean()` above) is resolved again and the exception raised. -/
 def setLinkAux (O : Oracle) (fuel : Nat) (s : X) (x : Nat) (v : LinkVal) : X × XOut :=
   match (s.h.node x).parent with
   | Option.none =>
@@ -330,7 +354,17 @@ def setLinkAux (O : Oracle) (fuel : Nat) (s : X) (x : Nat) (v : LinkVal) : X × 
     | .path Option.none => (s, .raised .valueError)
     | .path (some t) =>
       match cleanIfLinked O fuel s x with
-      | (s1, .ok) => mergeAux O fuel (s1.setLink x true) x t
+      | (s1, .ok) =>
+        match mergeAux O fuel s1 x t with
+        | (s2, .ok) => (s2.setLink x true, .ok)
+        | (s2, .fuel) => (s2, .fuel)
+        | (s2, out) =>
+          -- `except Exception: if self._link is not None: self.merge(); raise`
+          if s2.link x then
+            match relinkAux O fuel s2 x with
+            | (s3, .ok) => (s3, out)
+            | r => r
+          else (s2, out)
       | r => r
 
 /-! ### histories -/
